@@ -36,15 +36,23 @@ def main():
     pid = args[0]
     checks = None
     ks = []
+    srcdir = None
+    label = None
     i = 1
     while i < len(args):
         if args[i] == "--checks":
             checks = args[i + 1].split(",")
             i += 2
+        elif args[i] == "--src":  # second-wave layout: --src /tmp/seed2/Ca_Cb --label W2 <k>
+            srcdir = args[i + 1]
+            i += 2
+        elif args[i] == "--label":
+            label = args[i + 1]
+            i += 2
         else:
             ks.append(int(args[i]))
             i += 1
-    src = "/tmp/seed/%s" % pid
+    src = srcdir or "/tmp/seed/%s" % pid
     if not ks:
         ks = [k for k in (1, 2, 3) if os.path.exists("%s/change%d.diff" % (src, k)) or os.path.exists("/verif/seeded/%s-%d/patch.diff" % (pid, k))]
     if checks is None:
@@ -57,7 +65,7 @@ def main():
         patch = "%s/change%d.diff" % (src, k)
         demo = "%s/demo%d.py" % (src, k)
         notes = "%s/notes%d.md" % (src, k)
-        filed = "/verif/seeded/%s-%d" % (pid, k)
+        filed = "/verif/seeded/%s-%d" % (pid, k) if not label else "/verif/seeded/%s-%s" % (label, pid)
         if not os.path.exists(patch):  # scratch worktree already removed: use the filed copy
             patch, demo, notes = filed + "/patch.diff", filed + "/demo.py", filed + "/notes.md"
         M = "/dev/shm/traph-seeded-%s-%d-%d" % (pid, k, os.getpid())
@@ -67,6 +75,8 @@ def main():
             copy_repo(M)
             # demo on the clean copy
             dtxt = open(demo).read().replace(src, M)
+            for old in re.findall(r"/tmp/seed2?/[A-Za-z0-9_]+", dtxt):
+                dtxt = dtxt.replace(old, M)
             open(M + "/_demo.py", "w").write(dtxt)
             rc_clean, out_clean = sh("%s _demo.py" % PY, cwd=M, timeout=600)
             rc, out = sh("git apply --unsafe-paths --directory=%s %s || patch -p1 -s -d %s < %s" % (M, patch, M, patch))
@@ -98,7 +108,7 @@ def main():
                 meta["ran"].append("VERIF_REPO=<patched copy> ./check %s quick -> exit %d" % (c, rc_c))
             meta["checks"] = results
             meta["caught_by"] = [c for c, r in results.items() if r["exit"] == 1]
-            dst = "/verif/seeded/%s-%d" % (pid, k)
+            dst = filed
             os.makedirs(dst, exist_ok=True)
             if os.path.dirname(patch) != dst:
                 shutil.copy(patch, dst + "/patch.diff")
